@@ -329,6 +329,27 @@ func runCheck(o *Options) int {
 		fmt.Printf("ERROR no obligations generated for %s\n", o.Prop)
 		return 2
 	}
+	// thorough tier: every scenario driver mapped to an obligation of this property is also run against the real
+	// code as it stands (a driver that fails has shown the property broken on a concrete history)
+	var scenarioRuns []map[string]interface{}
+	scenariosPassed := 0
+	if o.Tier == "thorough" {
+		var names []string
+		for _, name := range order {
+			names = append(names, name)
+		}
+		for _, sr := range w.runScenariosFor(o, names) {
+			scenarioRuns = append(scenarioRuns, map[string]interface{}{"driver": sr.test, "obligation": sr.obligation, "failed": sr.res.Reproduced})
+			if sr.res.Reproduced {
+				violations++
+				path := filepath.Join(replayDir, sanitize(o.Prop+"-scenario-"+sr.test)+".txt")
+				os.WriteFile(path, []byte(sr.res.Text), 0o644)
+				fmt.Printf("VIOLATION property=%s replay=%s obligation=%s (scenario driver %s fails on the real code)\n", o.Prop, path, sr.obligation, sr.test)
+			} else if strings.Contains(sr.res.Text, "passed on the real code") {
+				scenariosPassed++
+			}
+		}
+	}
 	wall := time.Since(t0).Seconds()
 	if o.Evidence != "" {
 		var funcs []string
@@ -363,6 +384,8 @@ func runCheck(o *Options) int {
 				"known_findings":           knownHit,
 				"notes":                    notes,
 				"bounded_obligations":      []string{},
+				"scenario_drivers_run":     scenarioRuns,
+				"traces_validated_against_impl": scenariosPassed,
 			},
 			"assumptions": assumptions(w, o.Prop, results, trusted),
 		}
